@@ -4,6 +4,7 @@ import random
 
 import tlc
 import common
+import pipeline
 import cc
 
 ASSUME = [
@@ -155,6 +156,7 @@ def run(pid, tier, seed):
                         {"C01": ">= 2 replies", "C02": "an event while a listener was added", "C03": "contains a loss"}[pid]))
     # 3. traces -> TLC ------------------------------------------------------
     res, runs = tlc.validate_parallel("ControlConnTrace", "ControlConnTrace.cfg", traces, nproc=12)
+    pipeline.selftest_from(rep, "ControlConnTrace", "ControlConnTrace.cfg", traces[:60], res[:60])
     for r in runs:
         rep.cov["states"] += r.distinct
         rep.cov["transitions"] += r.generated
